@@ -35,3 +35,17 @@ func (s *Skiplist) VerifHeight() int { return int(s.getHeight()) }
 
 // VerifMaxHeight is the constant maxHeight.
 func VerifMaxHeight() int { return maxHeight }
+
+// VerifLevelOffsets returns the arena offsets (node identities) of the nodes linked on one
+// level, in list order.
+func (s *Skiplist) VerifLevelOffsets(level int) []uint32 {
+	var out []uint32
+	x := s.head
+	for {
+		x = s.getNext(x, level)
+		if x == nil {
+			return out
+		}
+		out = append(out, s.arena.getNodeOffset(x))
+	}
+}
